@@ -133,7 +133,12 @@ func runMode(ctx context.Context, c *Case, m Mode, dir string) (res ModeResult) 
 		res.Skip = "inspect: " + err.Error()
 		return
 	}
-	changes, err := client.SchemaDiff(cur, des)
+	// file databases are diffed like the CLI does (schema.DiffNormalized()), the others with the default mode
+	var dopts []schema.DiffOption
+	if m.Store == "file" {
+		dopts = append(dopts, schema.DiffNormalized())
+	}
+	changes, err := client.SchemaDiff(cur, des, dopts...)
 	if err != nil {
 		res.Skip = "diff-error: " + err.Error()
 		return
